@@ -373,8 +373,9 @@ def rule_inverse(ctx):
         v = b.value.id
         incs = [s for s in walk_own(btx) if isinstance(s, ast.AugAssign) and norm(s.target) == v]
         inits = [s for s in q.assigns(ctx, bak, v) if isinstance(s, ast.Assign)]
-        okb = len(incs) == 1 and isinstance(incs[0].op, ast.Add) and const_value(incs[0].value) == 1 and len(inits) == 1 \
-            and const_value(inits[0].value) == 0 and inits[0].lineno < btx.lineno and incs[0] in btx.body
+        # (an initialisation repeated right before the loop - what `enumerate(..., start=1)` normalises to - is the same 0)
+        okb = len(incs) == 1 and isinstance(incs[0].op, ast.Add) and const_value(incs[0].value) == 1 and len(inits) >= 1 \
+            and all(const_value(i_.value) == 0 and i_.lineno <= btx.lineno for i_ in inits) and incs[0] in btx.body
         if okb:
             okb, wit = pr.once_per_iteration(bcfg, btx, [bcfg.node(incs[0])])
     ctx.check(okb, 'C03.INVERSE', ctx.key(bak, b, 'tx_count') if b is not None else ctx.key(bak, None, 'tx_count'),
